@@ -371,10 +371,15 @@ def build_process_class(program, world, plumpy, hooks=True, record_calls=True):
             namespace[hook_name] = fn
             holders.append(holder)
 
+    requires_output = bool(program.get('required_output'))
+
     def define(cls, spec):
         super(cls_ref[0], cls).define(spec)
         spec.inputs.dynamic = True
         spec.outputs.dynamic = True
+        if requires_output:
+            # a declared, required output: a normal return without it still finishes, with its result, but unsuccessfully
+            spec.output('req', required=True)
 
     cls_ref = [None]
     namespace['define'] = classmethod(define)
@@ -495,10 +500,11 @@ def model_run(program, resume_values=None, max_steps=64):
             waits += 1
             index, args, kwargs = ret['to'], [value], {}
             continue
+        satisfied = not program.get('required_output') or 'req' in outputs
         if kind == 'value':
-            return dict(base, final='finished', result=ret['v'], ok=True, waits=waits)
+            return dict(base, final='finished', result=ret['v'], ok=satisfied, waits=waits)
         if kind == 'stop':
-            return dict(base, final='finished', result=ret['v'], ok=bool(ret['ok']), waits=waits)
+            return dict(base, final='finished', result=ret['v'], ok=bool(ret['ok']) and satisfied, waits=waits)
         if kind == 'unsuccessful':
             return dict(base, final='finished', result=ret['v'], ok=False, waits=waits)
         if kind == 'kill':
@@ -592,6 +598,12 @@ def gen_process_program(rng, cfg=None):
     program = {'kind': 'process', 'steps': steps, 'inputs': None}
     if rng.random() < cfg.get('p_custom_waiting', 0.25):
         program['custom_waiting'] = True
+    if rng.random() < cfg.get('p_required_output', 0.0):
+        program['required_output'] = True
+        if rng.random() < 0.5:
+            # ... which half of the programs emit, somewhere
+            step = steps[rng.randrange(len(steps))]
+            step['effects'][0].append({'e': 'out', 'k': 'req', 'v': gen_value(rng)})
     return program
 
 
